@@ -5,7 +5,7 @@ CONSTANTS
   MaxV = 1
   FlowPats = {"none", "f", "t"}
   Surplus = 0
-  Reds = {"none", "v_all", "p_inj", "q_inj", "pq_from", "pq_to", "p_from_q_to", "i_from", "i_to", "all"}
+  Reds = {"none", "v_all", "p_inj", "pq_to", "p_from_q_to", "i_from", "all_but_i", "all"}
   Dups = {"none", "first", "all"}
   Ords = {"created", "reversed", "interleaved"}
   Depth = 1
